@@ -97,7 +97,7 @@ EXPORT errno_t _wcsncmp_s_chk(const wchar_t *restrict dest, rsize_t dmax,
         return RCNEGATE(ESZEROL);
     }
     if (destbos == BOS_UNKNOWN) {
-        CHK_DMAX_MAX("wcsncmp_s", RSIZE_MAX_STR)
+        CHK_DMAX_MAX("wcsncmp_s", RSIZE_MAX_WSTR)
         BND_CHK_PTR_BOUNDS(dest, destsz);
     } else {
         CHK_DESTW_OVR("wcsncmp_s", destsz, destbos)
@@ -119,7 +119,7 @@ EXPORT errno_t _wcsncmp_s_chk(const wchar_t *restrict dest, rsize_t dmax,
         }
     }
 
-    while (*dest && *src && dmax && smax && count) {
+    while (dmax && smax && count && *dest && *src) {
 
         if (*dest != *src) {
             break;
@@ -132,6 +132,7 @@ EXPORT errno_t _wcsncmp_s_chk(const wchar_t *restrict dest, rsize_t dmax,
         count--;
     }
 
-    *resultp = *dest - *src;
+    /* equal within the compared elements, or the first differing pair */
+    *resultp = (dmax && smax && count) ? *dest - *src : 0;
     return RCNEGATE(EOK);
 }
